@@ -92,14 +92,25 @@ fn first_missed_break(sentence: &str, abs: usize, text: &str, occ: &[(usize, usi
     let mut k = 0;
     while k < n {
         let (p, c) = idx[k];
-        let strong = is_term(c);
+        // an ellipsis written with middle dots: three or more of them
+        let mut cd = 0;
+        if c == '・' {
+            while k + cd < n && idx[k + cd].1 == '・' {
+                cd += 1;
+            }
+            if cd < 3 {
+                k += cd;
+                continue;
+            }
+        }
+        let strong = is_term(c) || cd >= 3;
         let dot_ok = is_dot(c) && (k == 0 || !is_alnum(idx[k - 1].1));
         if !(strong || dot_ok) {
             k += 1;
             continue;
         }
         // the run of terminators / dots
-        let mut e = k + 1;
+        let mut e = k + cd.max(1);
         while e < n && (is_term(idx[e].1) || is_dot(idx[e].1)) {
             e += 1;
         }
